@@ -1,6 +1,663 @@
-//! C11 — not implemented yet.
-use crate::core::Ctx;
-use serde_json::Value;
+//! C11 — cookies survive the trip (DESIGN §5 C11).
+//!
+//! Request side.  One case = (jar, target) or (jar, iterator).  A jar is an ordered list of 1..3 cookies with distinct
+//! names; a cookie is (name, value, wire form) where the wire form is one of the encodings RFC 6265 allows for that
+//! value (`refmodel::cookie::Enc`).  The header text is decoded by the real `ohkami_lib::serde_cookie::from_str` into
+//! 8 struct shapes, and sent as a real request whose handler reads `req.headers.Cookies()` (read → router → send).
+//!
+//! Response side.  One case = a response with 1 (or 2) cookies set through `headers.set().SetCookie(name, value,
+//! |d| …)` with one directive combination.  The emitted line is read three ways: `headers.iter()` + the independent
+//! RFC 6265 parser, the crate's own `headers.SetCookie()`, and the bytes written by the real `send`.
 
-pub fn run(ctx: &mut Ctx) { ctx.machinery_error("C11 engine not implemented".into()); }
-pub fn replay(ctx: &mut Ctx, _case: &Value) { ctx.machinery_error("C11 engine not implemented".into()); }
+use super::c10::{fork_run, isolate_unit, merge_report, record_violation, signal_name, ForkResult, Progress};
+use crate::core::{guarded, panic_kind, Ctx, Tier};
+use std::collections::BTreeSet;
+use crate::refmodel::cookie::{self as ck, Enc};
+use ohkami_lib::serde_cookie::from_str;
+use serde::Deserialize;
+use serde_json::{json, Value};
+
+/* =============================== alphabets =============================== */
+
+const NAMES: &[&str] = &["a", "B1", "x-y", "_z", "!#$"];
+/// DESIGN's ten values plus `&b` (the `Option` visitor of the decoder looks for `&` at the front of the input)
+const VALUES: &[&str] = &["a", "", "a b", "é", "a=b", "a;b", "\"q\"", "%41", "a,b", "😀", "&b"];
+
+#[derive(Clone, Debug)]
+struct Cookie { name: &'static str, value: String, enc: Enc, wire: String }
+
+/// every (value, distinct wire form) × name; simplest first, the name varies fastest
+fn cookie_alphabet(names: &[&'static str], values: &[&str]) -> Vec<Cookie> {
+    let mut v = Vec::new();
+    for val in values {
+        let mut seen: Vec<String> = Vec::new();
+        for enc in Enc::ALL {
+            let Some(wire) = ck::encode_value(val, enc) else { continue };
+            if seen.contains(&wire) { continue }
+            seen.push(wire.clone());
+            for n in names { v.push(Cookie { name: n, value: val.to_string(), enc, wire: wire.clone() }) }
+        }
+    }
+    v
+}
+
+fn inner(wire: &str) -> &str { if wire.len() >= 2 && wire.starts_with('"') && wire.ends_with('"') { &wire[1..wire.len() - 1] } else { wire } }
+
+/// (rank, feature) of a cookie for class ids; smaller rank = more likely what a decoder trips over
+fn cookie_feature(c: &Cookie) -> (u8, &'static str) {
+    let i = inner(&c.wire);
+    if i.contains('=') { return (1, "eq") }
+    if i.starts_with('&') { return (2, "amp-first") }
+    if i.is_empty() { return (3, "empty") }
+    if !c.enc.is_pct() && ck::has_pct_triplet(&c.value) { return (4, "pct-literal") }
+    if !c.value.is_ascii() { return (5, "non-ascii") }
+    if c.value.contains([' ', ';', ',', '"', '\\']) { return (5, "separator") }
+    if c.value.contains('%') { return (5, "percent") }
+    if c.value.bytes().any(|b| !b.is_ascii_alphanumeric()) { return (5, "punct") }
+    (6, "simple")
+}
+fn cookie_tag(c: &Cookie) -> String { format!("{}:{}", c.enc.tag(), cookie_feature(c).1) }
+
+/// the values a wire form may stand for: the value itself; for a *plain/quoted* form that contains a `%XX` triplet also
+/// its percent-decoding (the statement does not say whether `%41` sent as-is means `%41` or `A`)
+fn admissible_values(c: &Cookie) -> Vec<String> {
+    let mut v = vec![c.value.clone()];
+    if !c.enc.is_pct() && ck::has_pct_triplet(&c.value) { if let Ok(d) = ck::pct_decode(&c.value) { if d != c.value { v.push(d) } } }
+    v
+}
+
+/* =============================== typed targets =============================== */
+
+#[derive(Clone, Debug, PartialEq, Eq)]
+enum FV { Str(String), Opt(Option<String>), Char(char) }
+type Obs = Vec<FV>;
+
+#[derive(Clone, Copy, Debug, PartialEq, Eq)]
+enum FK { Str, Opt, Borrowed, Char, Newtype, OptNewtype }
+impl FK { fn name(self) -> &'static str { match self { FK::Str => "string", FK::Opt => "opt-string", FK::Borrowed => "borrowed-str", FK::Char => "char", FK::Newtype => "newtype", FK::OptNewtype => "opt-newtype" } } }
+
+struct TargetDesc { id: &'static str, fields: &'static [(&'static str, FK)], decode: fn(&str) -> Result<Obs, String> }
+
+#[derive(Deserialize)] struct Val(String);
+#[derive(Deserialize)] struct A0 { a: String }
+#[derive(Deserialize)] struct A1 { a: String, #[serde(rename = "B1")] b1: String }
+#[derive(Deserialize)] struct A2 { #[serde(rename = "x-y")] xy: String, a: String }
+#[derive(Deserialize)] struct A3 { a: Option<String>, #[serde(rename = "B1")] b1: Option<String>, #[serde(rename = "x-y")] xy: Option<String>, _z: Option<String>, #[serde(rename = "!#$")] sym: Option<String> }
+#[derive(Deserialize)] struct A4<'r> { a: &'r str }
+#[derive(Deserialize)] struct A5 { a: char }
+#[derive(Deserialize)] struct A6 { _z: Option<String>, #[serde(rename = "!#$")] sym: String }
+#[derive(Deserialize)] struct A7 { a: Val, #[serde(rename = "B1")] b1: Option<Val> }
+
+macro_rules! dec { ($T:ty, |$t:ident| $obs:expr) => { |s: &str| from_str::<$T>(s).map(|$t| $obs).map_err(|e| e.to_string()) } }
+
+static TARGETS: &[TargetDesc] = &[
+    TargetDesc { id: "A0{a:String}", fields: &[("a", FK::Str)], decode: dec!(A0, |t| vec![FV::Str(t.a)]) },
+    TargetDesc { id: "A1{a:String,B1:String}", fields: &[("a", FK::Str), ("B1", FK::Str)], decode: dec!(A1, |t| vec![FV::Str(t.a), FV::Str(t.b1)]) },
+    TargetDesc { id: "A2{x-y:String,a:String}", fields: &[("x-y", FK::Str), ("a", FK::Str)], decode: dec!(A2, |t| vec![FV::Str(t.xy), FV::Str(t.a)]) },
+    TargetDesc { id: "A3{all five: Option<String>}", fields: &[("a", FK::Opt), ("B1", FK::Opt), ("x-y", FK::Opt), ("_z", FK::Opt), ("!#$", FK::Opt)],
+        decode: dec!(A3, |t| vec![FV::Opt(t.a), FV::Opt(t.b1), FV::Opt(t.xy), FV::Opt(t._z), FV::Opt(t.sym)]) },
+    TargetDesc { id: "A4{a:&str}", fields: &[("a", FK::Borrowed)], decode: dec!(A4, |t| vec![FV::Str(t.a.to_string())]) },
+    TargetDesc { id: "A5{a:char}", fields: &[("a", FK::Char)], decode: dec!(A5, |t| vec![FV::Char(t.a)]) },
+    TargetDesc { id: "A6{_z:Option<String>,!#$:String}", fields: &[("_z", FK::Opt), ("!#$", FK::Str)], decode: dec!(A6, |t| vec![FV::Opt(t._z), FV::Str(t.sym)]) },
+    TargetDesc { id: "A7{a:Val(String),B1:Option<Val>}", fields: &[("a", FK::Newtype), ("B1", FK::OptNewtype)], decode: dec!(A7, |t| vec![FV::Str(t.a.0), FV::Opt(t.b1.map(|v| v.0))]) },
+];
+
+#[derive(Clone, Debug, PartialEq)]
+enum Alt { Err, Val(FV) }
+
+/// What the statement admits for one field given the cookie of that name in the jar (names are distinct).
+fn field_alts(kind: FK, c: Option<&Cookie>) -> Vec<Alt> {
+    let Some(c) = c else {
+        return match kind { FK::Opt | FK::OptNewtype => vec![Alt::Val(FV::Opt(None))], _ => vec![Alt::Err] }   // a required field without its cookie does not fit
+    };
+    let mut alts = Vec::new();
+    for v in admissible_values(c) {
+        match kind {
+            FK::Str | FK::Newtype => alts.push(Alt::Val(FV::Str(v))),
+            FK::Borrowed => alts.push(Alt::Val(FV::Str(v))),
+            FK::Opt | FK::OptNewtype => {
+                if v.is_empty() { alts.push(Alt::Val(FV::Opt(None))) }   // empty value ↔ absent: silent
+                alts.push(Alt::Val(FV::Opt(Some(v))));
+            }
+            FK::Char => { let mut it = v.chars(); match (it.next(), it.next()) { (Some(ch), None) => alts.push(Alt::Val(FV::Char(ch))), _ => alts.push(Alt::Err) } }
+        }
+    }
+    // a `&str` cannot hold text that had to be percent-decoded: an error is as good as the value
+    if kind == FK::Borrowed && inner(&c.wire).contains('%') { alts.push(Alt::Err) }
+    alts.dedup();
+    alts
+}
+
+enum Verdict { Pass { ambiguous: bool, key: String }, Violation { field: Option<usize>, symptom: String } }
+
+#[derive(Clone, Debug)]
+enum Observed { Val(Obs), Err(String), Panic(String) }
+impl Observed {
+    fn brief(&self) -> String { match self { Observed::Val(v) => format!("Ok({v:?})"), Observed::Err(e) => format!("Err({e})"), Observed::Panic(p) => format!("panic: {p}") } }
+}
+
+fn judge(fields: &[Vec<Alt>], obs: &Observed, t: &TargetDesc) -> Verdict {
+    let tid = &t.id[..2];
+    match obs {
+        Observed::Panic(p) => Verdict::Violation { field: None, symptom: format!("panic:{}", panic_kind(p)) },
+        Observed::Err(_) => {
+            let must = fields.iter().any(|a| a.iter().all(|x| *x == Alt::Err));
+            let may = must || fields.iter().any(|a| a.contains(&Alt::Err));
+            if !may { return Verdict::Violation { field: None, symptom: "refused-should-accept".into() } }
+            Verdict::Pass { ambiguous: !must, key: format!("de:err:{tid}") }
+        }
+        Observed::Val(v) => {
+            if v.len() != fields.len() { return Verdict::Violation { field: None, symptom: "wrong-field-count".into() } }
+            let mut ambiguous = false;
+            for (i, (alts, o)) in fields.iter().zip(v).enumerate() {
+                let vals: Vec<&FV> = alts.iter().filter_map(|a| match a { Alt::Val(x) => Some(x), Alt::Err => None }).collect();
+                if vals.is_empty() { return Verdict::Violation { field: Some(i), symptom: "accepted-should-refuse".into() } }
+                if !vals.contains(&o) {
+                    let symptom = match (vals[0], o) {
+                        (FV::Opt(Some(_)), FV::Opt(None)) => "absent-should-be-present",
+                        (FV::Opt(None), FV::Opt(Some(_))) => "present-should-be-absent",
+                        _ => "wrong-value",
+                    };
+                    return Verdict::Violation { field: Some(i), symptom: symptom.into() }
+                }
+                if alts.len() > 1 { ambiguous = true }
+            }
+            Verdict::Pass { ambiguous, key: format!("de:val:{tid}") }
+        }
+    }
+}
+
+/// For class ids only (never for a verdict): which cookie makes the whole header fail?  Each cookie is decoded alone
+/// into the all-optional target; among those that fail alone (or among all, if none does) the most suspicious wire form wins.
+fn culprit<'a>(jar: &[&'a Cookie]) -> &'a Cookie {
+    let alone: Vec<&Cookie> = jar.iter().copied().filter(|c| !matches!(guarded(|| (TARGETS[3].decode)(&header_of(&[*c]))), Ok(Ok(_)))).collect();
+    let pool = if alone.is_empty() { jar.to_vec() } else { alone };
+    pool.into_iter().min_by_key(|c| cookie_feature(c).0).expect("jars are never empty")
+}
+
+fn jar_json(jar: &[&Cookie]) -> Value { json!(jar.iter().map(|c| json!({"name": c.name, "value": c.value, "enc": c.enc.tag()})).collect::<Vec<_>>()) }
+fn header_of(jar: &[&Cookie]) -> String { ck::encode_cookie_header(&jar.iter().map(|c| (c.name, c.wire.as_str())).collect::<Vec<_>>()) }
+
+fn check_typed(ctx: &mut Ctx, jar: &[&Cookie], header: &str, ti: usize, encoded: bool) {
+    let t = &TARGETS[ti];
+    let fields: Vec<Vec<Alt>> = t.fields.iter().map(|(n, k)| field_alts(*k, jar.iter().copied().find(|c| c.name == *n))).collect();
+    let obs = match guarded(|| (t.decode)(header)) { Ok(Ok(v)) => Observed::Val(v), Ok(Err(e)) => Observed::Err(e), Err(p) => Observed::Panic(p) };
+    let declared = jar.iter().any(|c| t.fields.iter().any(|(n, _)| c.name == *n));
+    match judge(&fields, &obs, t) {
+        Verdict::Pass { ambiguous: false, key } => ctx.pass(&key, declared, declared && encoded),
+        Verdict::Pass { ambiguous: true, key } => ctx.ambiguous(&key),
+        Verdict::Violation { field, symptom } => {
+            // blame: the cookie of the failing field; for whole-header failures the cookie with the most suspicious wire form
+            let blamed: &Cookie = match field.and_then(|i| jar.iter().copied().find(|c| c.name == t.fields[i].0)) {
+                Some(c) => c,
+                None => culprit(jar),
+            };
+            let kind = match field { Some(i) => t.fields[i].1.name(),
+                None => t.fields.iter().find(|(n, _)| *n == blamed.name).map(|(_, k)| k.name()).unwrap_or("undeclared") };
+            let tag = match (field, jar.iter().any(|c| c.name == field.map(|i| t.fields[i].0).unwrap_or(""))) { (Some(_), false) => "no-cookie".to_string(), _ => cookie_tag(blamed) };
+            let class = format!("C11/de/{kind}/{tag}/{symptom}");
+            record_violation(ctx, &class, declared, || json!({"part": "de", "jar": jar_json(jar), "target": t.id, "header": header,
+                "expected": format!("{fields:?}"), "observed": obs.brief()}));
+        }
+    }
+}
+
+/* =============================== the request's cookie iterator =============================== */
+
+struct IterApp { router: ohkami::__verif__::VerifRouter }
+impl IterApp {
+    fn new() -> Self {
+        use ohkami::{Ohkami, Route};
+        async fn dump(req: &ohkami::Request) -> String {
+            json!({"raw": req.headers.Cookie(), "pairs": req.headers.Cookies().map(|(n, v)| json!([n, v])).collect::<Vec<_>>()}).to_string()
+        }
+        crate::app::pin_clock();
+        IterApp { router: ohkami::__verif__::VerifRouter::from(Ohkami::new(("/".GET(dump),))) }
+    }
+    /// Ok((raw header as the request holds it, pairs from the iterator))
+    fn observe(&self, header: &str) -> Result<(Option<String>, Vec<(String, String)>), String> {
+        let raw = crate::app::request("GET", "/", &[("Host", "h"), ("Cookie", header)], b"");
+        match crate::app::oneshot(&self.router, &raw) {
+            crate::app::Outcome::Response { raw, .. } => {
+                let (status, _, body) = split_response(&raw).ok_or("response is not an HTTP/1.1 message with a Content-Length body")?;
+                if status != 200 { return Err(format!("status {status}")) }
+                let v: Value = serde_json::from_slice(body).map_err(|e| format!("handler output unreadable: {e}"))?;
+                let pairs = v["pairs"].as_array().ok_or("no pairs")?.iter().map(|p| (p[0].as_str().unwrap_or("").to_string(), p[1].as_str().unwrap_or("").to_string())).collect();
+                Ok((v["raw"].as_str().map(str::to_string), pairs))
+            }
+            other => Err(other.kind()),
+        }
+    }
+}
+
+/// (status, header lines, body) of what the subject wrote.  Minimal on purpose (C03 owns response well-formedness).
+fn split_response(raw: &[u8]) -> Option<(u16, Vec<(String, String)>, &[u8])> {
+    let head_end = raw.windows(4).position(|w| w == b"\r\n\r\n")?;
+    let head = std::str::from_utf8(&raw[..head_end]).ok()?;
+    let mut lines = head.split("\r\n");
+    let status: u16 = lines.next()?.strip_prefix("HTTP/1.1 ")?.get(..3)?.parse().ok()?;
+    let headers: Vec<(String, String)> = lines.map(|l| l.split_once(": ").map(|(k, v)| (k.to_string(), v.to_string()))).collect::<Option<_>>()?;
+    let cl: usize = headers.iter().find(|(k, _)| k.eq_ignore_ascii_case("content-length"))?.1.parse().ok()?;
+    let body = &raw[head_end + 4..];
+    (body.len() == cl).then_some((status, headers, body))
+}
+
+fn check_iter(ctx: &mut Ctx, app: &IterApp, jar: &[&Cookie], header: &str, encoded: bool) {
+    let witness = |observed: String| json!({"part": "iter", "jar": jar_json(jar), "header": header,
+        "expected": jar.iter().map(|c| json!([c.name, admissible_values(c)])).collect::<Vec<_>>(), "observed": observed});
+    let (raw, pairs) = match app.observe(header) {
+        Ok(x) => x,
+        Err(e) => {
+            let blamed = jar.iter().copied().min_by_key(|c| cookie_feature(c).0).unwrap();
+            let class = format!("C11/iter/{}/no-answer:{}", cookie_tag(blamed), panic_kind(&e));
+            return ctx.violation(&class, true, || witness(e.clone()))
+        }
+    };
+    let observed = format!("{pairs:?}");
+    let fail = |ctx: &mut Ctx, c: &Cookie, symptom: &str| {
+        let class = format!("C11/iter/{}/{symptom}", cookie_tag(c));
+        record_violation(ctx, &class, true, || witness(observed.clone()))
+    };
+    if raw.as_deref() != Some(header) { return fail(ctx, jar[0], "header-altered") }
+    if pairs.len() < jar.len() {
+        let missing = jar.iter().copied().find(|c| !pairs.iter().any(|(n, _)| n == c.name)).unwrap_or(jar[0]);
+        return fail(ctx, missing, "cookie-dropped")
+    }
+    if pairs.len() > jar.len() { return fail(ctx, jar[0], "extra-cookie") }
+    let mut ambiguous = false;
+    for (c, (n, v)) in jar.iter().zip(&pairs) {
+        if n != c.name {
+            let same_set = jar.iter().all(|c| pairs.iter().any(|(n, _)| n == c.name));
+            return fail(ctx, c, if same_set { "order" } else { "wrong-name" })
+        }
+        let adm = admissible_values(c);
+        if !adm.contains(v) {
+            let symptom = if *v == c.wire {
+                match (c.enc.is_quoted(), c.enc.is_pct() && inner(&c.wire) != c.value) { (true, true) => "raw-wire-text:quoted+pct", (true, false) => "raw-wire-text:quoted", _ => "raw-wire-text:pct" }
+            } else { "wrong-value" };
+            return fail(ctx, c, symptom)
+        }
+        if adm.len() > 1 { ambiguous = true }
+    }
+    if ambiguous { ctx.ambiguous("iter:ok") } else { ctx.pass(&format!("iter:ok:{}", jar.len()), true, encoded) }
+}
+
+/* =============================== response side =============================== */
+
+const EXPIRES: &str = "Sun, 06 Nov 1994 08:49:37 GMT";
+const DOMAIN: &str = "example.com";
+
+#[derive(Clone, Debug, PartialEq, Eq)]
+struct Directives { expires: bool, max_age: Option<u64>, domain: bool, path: Option<String>, secure: bool, http_only: bool, same_site: Option<&'static str> }
+
+impl Directives {
+    fn count(&self) -> usize { self.expires as usize + self.max_age.is_some() as usize + self.domain as usize + self.path.is_some() as usize + self.secure as usize + self.http_only as usize + self.same_site.is_some() as usize }
+    fn json(&self) -> Value { json!({"expires": self.expires, "max_age": self.max_age, "domain": self.domain, "path": self.path, "secure": self.secure, "http_only": self.http_only, "same_site": self.same_site}) }
+    fn from_json(v: &Value) -> Option<Self> {
+        Some(Directives { expires: v["expires"].as_bool()?, max_age: v["max_age"].as_u64(), domain: v["domain"].as_bool()?, path: v["path"].as_str().map(str::to_string),
+            secure: v["secure"].as_bool()?, http_only: v["http_only"].as_bool()?,
+            same_site: match v["same_site"].as_str() { None => None, Some("Strict") => Some("Strict"), Some("Lax") => Some("Lax"), Some("None") => Some("None"), Some(_) => return None } })
+    }
+}
+
+fn directive_combos(paths: &[Option<&str>]) -> Vec<Directives> {
+    let mut v = Vec::new();
+    for same_site in [None, Some("Strict"), Some("Lax"), Some("None")] {
+    for max_age in [None, Some(0), Some(1), Some(u64::MAX)] {
+    for path in paths {
+    for expires in [false, true] { for domain in [false, true] { for secure in [false, true] { for http_only in [false, true] {
+        v.push(Directives { expires, max_age, domain, path: path.map(str::to_string), secure, http_only, same_site });
+    } } } } } } }
+    // fewest directives first
+    v.sort_by_key(|d| d.count());
+    v
+}
+
+#[derive(Clone, Debug)]
+struct SetSpec { name: &'static str, value: String, dir: Directives }
+
+fn build_response(cookies: &[SetSpec]) -> ohkami::Response {
+    let mut res = ohkami::Response::OK();
+    for c in cookies {
+        let d = c.dir.clone();
+        res.headers.set().SetCookie(c.name, c.value.clone(), move |mut b| {
+            if d.expires { b = b.Expires(EXPIRES) }
+            if let Some(n) = d.max_age { b = b.MaxAge(n) }
+            if d.domain { b = b.Domain(DOMAIN) }
+            if let Some(p) = d.path { b = b.Path(p) }
+            if d.secure { b = b.Secure() }
+            if d.http_only { b = b.HttpOnly() }
+            match d.same_site { Some("Strict") => b = b.SameSiteStrict(), Some("Lax") => b = b.SameSiteLax(), Some("None") => b = b.SameSiteNone(), _ => {} }
+            b
+        });
+    }
+    res
+}
+
+fn value_feature(v: &str) -> &'static str {
+    if v.is_empty() { "empty" } else if !v.is_ascii() { "non-ascii" } else if v.contains('%') { "percent" }
+    else if v.contains([' ', ';', ',', '"', '\\']) { "separator" } else if v.contains('=') { "eq" }
+    else if v.bytes().any(|b| !b.is_ascii_alphanumeric()) { "punct" } else { "simple" }
+}
+
+struct CrateParsed { name: String, value: String, expires: Option<String>, max_age: Option<u64>, domain: Option<String>, path: Option<String>, secure: Option<bool>, http_only: Option<bool>, same_site: Option<String> }
+
+struct ResObs { lines: Vec<String>, crate_parsed: Vec<CrateParsed>, wire_lines: Result<Vec<String>, String> }
+
+fn observe_response(cookies: &[SetSpec]) -> Result<ResObs, (&'static str, String)> {
+    let res = guarded(|| build_response(cookies)).map_err(|p| ("build", p))?;
+    let lines = guarded(|| res.headers.iter().filter(|(k, _)| k.eq_ignore_ascii_case("Set-Cookie")).map(|(_, v)| v.to_string()).collect::<Vec<_>>()).map_err(|p| ("iter", p))?;
+    let crate_parsed = guarded(|| res.headers.SetCookie().map(|c| CrateParsed { name: c.Cookie().0.to_string(), value: c.Cookie().1.to_string(),
+        expires: c.Expires().map(str::to_string), max_age: c.MaxAge(), domain: c.Domain().map(str::to_string), path: c.Path().map(str::to_string),
+        secure: c.Secure(), http_only: c.HttpOnly(), same_site: c.SameSite().map(str::to_string) }).collect::<Vec<_>>()).map_err(|p| ("crate-parser", p))?;
+    let wire_lines = (|| {
+        let mut w = crate::sio::ScriptedWriter::new(crate::sio::WriterMode::All);
+        let sent = guarded(|| crate::exec::block_on_immediate(ohkami::__verif__::send(res, &mut w))).map_err(|p| format!("panic:{}", panic_kind(&p)))?;
+        sent.map_err(|s| format!("send {s}"))?;
+        let (_, headers, _) = split_response(&w.written).ok_or("written bytes are not an HTTP/1.1 message with a Content-Length body")?;
+        Ok(headers.into_iter().filter(|(k, _)| k.eq_ignore_ascii_case("Set-Cookie")).map(|(_, v)| v).collect())
+    })();
+    Ok(ResObs { lines, crate_parsed, wire_lines })
+}
+
+fn max_age_tag(n: u64) -> &'static str { match n { 0 => "max-age:0", 1 => "max-age:1", u64::MAX => "max-age:max", _ => "max-age:other" } }
+
+/// first difference between what was asked for and what a parser got back: (attribute tag, symptom)
+fn diff_cookie(spec: &SetSpec, name: &str, value: Result<&str, &str>, expires: Option<&str>, max_age: Result<Option<u64>, &str>, domain: Option<&str>, path: Option<&str>,
+               secure: bool, http_only: bool, same_site: Option<&str>) -> Option<(String, &'static str)> {
+    let presence = |want: bool, got: bool| if want && !got { Some("missing") } else if !want && got { Some("unexpected") } else { None };
+    if name != spec.name { return Some(("name".into(), "wrong-value")) }
+    match value { Err(_) => return Some((format!("value:{}", value_feature(&spec.value)), "undecodable")), Ok(v) if v != spec.value => return Some((format!("value:{}", value_feature(&spec.value)), "wrong-value")), _ => {} }
+    let d = &spec.dir;
+    if let Some(s) = presence(d.expires, expires.is_some()) { return Some(("expires".into(), s)) }
+    if d.expires && expires != Some(EXPIRES) { return Some(("expires".into(), "wrong-value")) }
+    let ma_tag = d.max_age.map(max_age_tag).unwrap_or("max-age").to_string();
+    match max_age {
+        Err(_) => return Some((ma_tag, "unreadable")),
+        Ok(got) => { if let Some(s) = presence(d.max_age.is_some(), got.is_some()) { return Some((ma_tag, s)) } if got != d.max_age { return Some((ma_tag, "wrong-value")) } }
+    }
+    if let Some(s) = presence(d.domain, domain.is_some()) { return Some(("domain".into(), s)) }
+    if d.domain && domain != Some(DOMAIN) { return Some(("domain".into(), "wrong-value")) }
+    if let Some(s) = presence(d.path.is_some(), path.is_some()) { return Some(("path".into(), s)) }
+    if path != d.path.as_deref() { return Some(("path".into(), "wrong-value")) }
+    if let Some(s) = presence(d.secure, secure) { return Some(("secure".into(), s)) }
+    if let Some(s) = presence(d.http_only, http_only) { return Some(("httponly".into(), s)) }
+    let ss_tag = d.same_site.map(|s| format!("samesite:{}", s.to_ascii_lowercase())).unwrap_or_else(|| "samesite".into());
+    if let Some(s) = presence(d.same_site.is_some(), same_site.is_some()) { return Some((ss_tag, s)) }
+    if same_site != d.same_site { return Some((ss_tag, "wrong-value")) }
+    None
+}
+
+fn check_response(ctx: &mut Ctx, cookies: &[SetSpec]) {
+    let wit = |observed: String| json!({"part": "set-cookie", "cookies": cookies.iter().map(|c| json!({"name": c.name, "value": c.value, "directives": c.dir.json()})).collect::<Vec<_>>(), "observed": observed});
+    let n = cookies.len();
+    let shape = if n == 1 { "" } else { "multi:" };
+    let obs = match observe_response(cookies) {
+        Ok(o) => o,
+        Err((stage, p)) => return ctx.violation(&format!("C11/set-cookie/{stage}/{shape}panic:{}", panic_kind(&p)), true, || wit(format!("panic in {stage}: {p}"))),
+    };
+    let all = format!("lines={:?} wire={:?}", obs.lines, obs.wire_lines);
+    // (1) one line per cookie
+    if obs.lines.len() != n {
+        return ctx.violation(&format!("C11/set-cookie/line/{shape}count/{}", if obs.lines.len() < n { "missing-line" } else { "extra-line" }), true, || wit(all.clone()))
+    }
+    let mut lenient = false;
+    for (spec, line) in cookies.iter().zip(&obs.lines) {
+        // (2) the line is inside the RFC 6265 grammar and says what was asked for
+        let p = match ck::parse_set_cookie(line) {
+            Ok(p) => p,
+            Err((at, msg)) => {
+                let at = if at == "value" { format!("value:{}", value_feature(&spec.value)) } else if at == "max-age" { spec.dir.max_age.map(max_age_tag).unwrap_or("max-age").to_string() } else { at };
+                return ctx.violation(&format!("C11/set-cookie/line/{shape}{at}/outside-grammar"), true, || wit(format!("{msg}; {all}")))
+            }
+        };
+        if !p.extensions.is_empty() { return ctx.violation(&format!("C11/set-cookie/line/{shape}extension/unexpected"), true, || wit(all.clone())) }
+        lenient |= !p.lenient.is_empty();
+        let value = ck::decode_wire_value(&p.value_wire);
+        let max_age = match &p.max_age { None => Ok(None), Some(d) => d.parse::<u64>().map(Some).map_err(|_| "overflow") };
+        if let Some((attr, symptom)) = diff_cookie(spec, &p.name, value.as_deref().map_err(|e| e.as_str()), p.expires.as_deref(), max_age, p.domain.as_deref(), p.path.as_deref(), p.secure, p.http_only, p.same_site.as_deref()) {
+            return ctx.violation(&format!("C11/set-cookie/line/{shape}{attr}/{symptom}"), true, || wit(all.clone()))
+        }
+    }
+    // (3) the crate's own parser reads the same back
+    if obs.crate_parsed.len() != n {
+        return ctx.violation(&format!("C11/set-cookie/crate-parser/{shape}count/{}", if obs.crate_parsed.len() < n { "missing-cookie" } else { "extra-cookie" }), true, || wit(all.clone()))
+    }
+    for (spec, c) in cookies.iter().zip(&obs.crate_parsed) {
+        if let Some((attr, symptom)) = diff_cookie(spec, &c.name, Ok(&c.value), c.expires.as_deref(), Ok(c.max_age), c.domain.as_deref(), c.path.as_deref(),
+                c.secure == Some(true), c.http_only == Some(true), c.same_site.as_deref()) {
+            return ctx.violation(&format!("C11/set-cookie/crate-parser/{shape}{attr}/{symptom}"), true,
+                || wit(format!("headers.SetCookie() gave name={:?} value={:?} expires={:?} max_age={:?} domain={:?} path={:?} secure={:?} http_only={:?} same_site={:?}; {all}",
+                    c.name, c.value, c.expires, c.max_age, c.domain, c.path, c.secure, c.http_only, c.same_site)))
+        }
+    }
+    // (4) the same lines, one per cookie, in the bytes written by `send`
+    match &obs.wire_lines {
+        Err(e) => return ctx.violation(&format!("C11/set-cookie/wire/{shape}send/{}", panic_kind(e)), true, || wit(format!("{e}; {all}"))),
+        Ok(w) if *w != obs.lines => return ctx.violation(&format!("C11/set-cookie/wire/{shape}lines/{}", if w.len() != n { "count" } else { "altered" }), true, || wit(all.clone())),
+        Ok(_) => {}
+    }
+    if lenient { return ctx.ambiguous("set-cookie:max-age-zero-outside-strict-grammar") }
+    let encoded = cookies.iter().any(|c| c.value.bytes().any(|b| !b.is_ascii_alphanumeric()) || c.dir.max_age == Some(u64::MAX)) || n > 1;
+    let nontrivial = cookies.iter().any(|c| c.dir.count() > 0 || !c.value.is_empty());
+    ctx.pass(&format!("set-cookie:ok:{}{}-directives", shape, cookies.iter().map(|c| c.dir.count()).sum::<usize>()), nontrivial, nontrivial && encoded);
+}
+
+/* =============================== enumeration =============================== */
+
+struct Bounds { cookies_full: Vec<Cookie>, full_max: usize, cookies_reduced: Vec<Cookie>, reduced_max: usize, paths: Vec<Option<&'static str>>, pair_values: Vec<&'static str> }
+
+fn bounds(tier: Tier) -> Bounds {
+    match tier {
+        Tier::Quick => Bounds { cookies_full: cookie_alphabet(NAMES, VALUES), full_max: 2,
+            cookies_reduced: cookie_alphabet(NAMES, &["a", "", "é", "a=b", "%41", "a;b", "&b"]), reduced_max: 3,
+            paths: vec![None, Some("/")], pair_values: vec!["a", "a;b"] },
+        Tier::Thorough => Bounds { cookies_full: cookie_alphabet(NAMES, VALUES), full_max: 3,
+            cookies_reduced: cookie_alphabet(NAMES, &["a", "", "é", "a=b", "%41", "&b"]), reduced_max: 4,
+            paths: vec![None, Some("/"), Some("/p q/r=s")], pair_values: vec!["a", "", "a;b", "é"] },
+    }
+}
+
+fn for_each_jar(alphabet: &[Cookie], first: usize, len: usize, f: &mut dyn FnMut(&[&Cookie])) {
+    fn rec<'a>(alphabet: &'a [Cookie], len: usize, cur: &mut Vec<&'a Cookie>, f: &mut dyn FnMut(&[&Cookie])) {
+        if cur.len() == len { f(cur); return }
+        for c in alphabet {
+            if cur.iter().any(|x| x.name == c.name) { continue }
+            cur.push(c); rec(alphabet, len, cur, f); cur.pop();
+        }
+    }
+    let mut cur = vec![&alphabet[first]];
+    rec(alphabet, len, &mut cur, f);
+}
+
+enum Mode<'a> { Run { skip: &'a BTreeSet<u64>, progress: &'a Progress }, Describe(u64) }
+/// what `Describe(n)` finds: the class prefix and the replayable witness of case n
+struct Found { class: String, witness: Value }
+
+/// class prefix for a request-side case that killed the process (no call into the subject here)
+fn died_class_request(jar: &[&Cookie], target: Option<usize>) -> String {
+    let blamed = jar.iter().copied().min_by_key(|c| cookie_feature(c).0).expect("jars are never empty");
+    match target {
+        None => format!("C11/iter/{}", cookie_tag(blamed)),
+        Some(ti) => format!("C11/de/{}/{}", TARGETS[ti].fields.iter().find(|(n, _)| *n == blamed.name).map(|(_, k)| k.name()).unwrap_or("undeclared"), cookie_tag(blamed)),
+    }
+}
+fn died_class_response(cookies: &[SetSpec]) -> String { format!("C11/set-cookie/build/{}", if cookies.len() == 1 { "" } else { "multi:" }) }
+fn response_witness(cookies: &[SetSpec]) -> Value {
+    json!({"part": "set-cookie", "cookies": cookies.iter().map(|c| json!({"name": c.name, "value": c.value, "directives": c.dir.json()})).collect::<Vec<_>>()})
+}
+
+/// One unit of the request side: every jar of `len` cookies that starts with cookie number `first`; 1 + 8 cases per jar.
+fn walk_jar_unit(ctx: &mut Ctx, app: &IterApp, alphabet: &[Cookie], first: usize, len: usize, selfcheck: bool, mode: &Mode<'_>) -> Option<Found> {
+    let mut seq = 0u64;
+    let mut found: Option<Found> = None;
+    for_each_jar(alphabet, first, len, &mut |jar| {
+        if ctx.capped || found.is_some() { return }
+        let header = header_of(jar);
+        if selfcheck && matches!(mode, Mode::Run { .. }) {
+            // binds the encoder to the grammar: the strict reader returns the same pairs, and the percent
+            // convention gives back the value
+            ctx.traces_validated += 1;
+            match ck::parse_cookie_header(&header) {
+                Ok(p) if p.len() == jar.len() && p.iter().zip(jar).all(|((n, w), c)| n == c.name && *w == c.wire && (!c.enc.is_pct() || ck::decode_wire_value(w).as_deref() == Ok(c.value.as_str()))) => {}
+                other => ctx.machinery_error(format!("reference: strict Cookie reader disagrees with the encoder on `{header}`: {other:?}")),
+            }
+        }
+        let encoded = jar.iter().any(|c| c.wire != c.value);
+        for target in std::iter::once(None).chain((0..TARGETS.len()).map(Some)) {
+            seq += 1;
+            match mode {
+                Mode::Describe(n) => if seq == *n {
+                    found = Some(Found { class: died_class_request(jar, target), witness: match target {
+                        None => json!({"part": "iter", "jar": jar_json(jar), "header": header}),
+                        Some(ti) => json!({"part": "de", "jar": jar_json(jar), "target": TARGETS[ti].id, "header": header}) } });
+                    return
+                },
+                Mode::Run { skip, progress } => {
+                    if skip.contains(&seq) { continue }
+                    progress.set(seq);
+                    match target { None => check_iter(ctx, app, jar, &header, encoded), Some(ti) => check_typed(ctx, jar, &header, ti, encoded) }
+                }
+            }
+        }
+        let _ = ctx.out_of_time();
+    });
+    found
+}
+
+fn walk_response_unit(ctx: &mut Ctx, responses: &mut dyn Iterator<Item = Vec<SetSpec>>, mode: &Mode<'_>) -> Option<Found> {
+    let mut seq = 0u64;
+    for cookies in responses {
+        seq += 1;
+        match mode {
+            Mode::Describe(n) => if seq == *n { return Some(Found { class: died_class_response(&cookies), witness: response_witness(&cookies) }) },
+            Mode::Run { skip, progress } => { if skip.contains(&seq) { continue } progress.set(seq); check_response(ctx, &cookies) }
+        }
+    }
+    None
+}
+
+const MAX_DEATHS_PER_UNIT: usize = 6;
+
+/// Runs one unit in a forked child (see `c10::isolate_unit`); cases that kill the process become `…/abort:<signal>` violations.
+fn run_isolated(ctx: &mut Ctx, progress: &Progress, given_up: &mut u64, walk: &dyn Fn(&mut Ctx, &Mode<'_>) -> Option<Found>) {
+    let (completed, died) = isolate_unit(ctx, progress, MAX_DEATHS_PER_UNIT, &|c, skip| { walk(c, &Mode::Run { skip, progress }); });
+    if !completed { *given_up += 1 }
+    for (at, sig) in died {
+        let mut scratch = Ctx::new(ctx.property, ctx.tier, 0, 1);
+        match walk(&mut scratch, &Mode::Describe(at)) {
+            Some(mut f) => { f.witness["observed"] = json!(format!("process died: {sig}")); let w = f.witness; ctx.violation(&format!("{}/abort:{sig}", f.class), true, || w) }
+            None => ctx.machinery_error(format!("could not re-derive case {at} of a unit that died")),
+        }
+    }
+}
+
+pub fn run(ctx: &mut Ctx) {
+    let b = bounds(ctx.tier);
+    crate::app::pin_clock();
+    let app = IterApp::new();
+    let progress = Progress::new();
+    let mut given_up = 0u64;
+
+    /* request side */
+    for (alphabet, lens, selfcheck) in [(&b.cookies_full, 1..=b.full_max, true), (&b.cookies_reduced, (b.full_max + 1)..=b.reduced_max, false)] {
+        for len in lens {
+            for first in 0..alphabet.len() {
+                if !ctx.mine() { continue }
+                if ctx.out_of_time() { break }
+                run_isolated(ctx, &progress, &mut given_up, &|c, mode| walk_jar_unit(c, &app, alphabet, first, len, selfcheck, mode));
+            }
+        }
+    }
+
+    /* response side: one cookie, every directive combination */
+    let combos = directive_combos(&b.paths);
+    for name in NAMES {
+        for value in VALUES {
+            if !ctx.mine() { continue }
+            if ctx.out_of_time() { break }
+            run_isolated(ctx, &progress, &mut given_up, &|c, mode| walk_response_unit(c, &mut combos.iter().map(|d| vec![SetSpec { name, value: value.to_string(), dir: d.clone() }]), mode));
+        }
+    }
+    /* response side: two cookies in one response (one line per cookie, order kept) */
+    let few: Vec<Directives> = combos.iter().filter(|d| d.count() <= 1 || d.count() == 7).cloned().collect();
+    let singles: Vec<SetSpec> = [NAMES[0], NAMES[4]].iter().flat_map(|n| b.pair_values.iter().flat_map(|v| few.iter().map(|d| SetSpec { name: n, value: v.to_string(), dir: d.clone() }).collect::<Vec<_>>()).collect::<Vec<_>>()).collect();
+    for x in &singles {
+        if !ctx.mine() { continue }
+        if ctx.out_of_time() { break }
+        run_isolated(ctx, &progress, &mut given_up, &|c, mode| walk_response_unit(c, &mut singles.iter().map(|y| vec![x.clone(), y.clone()]), mode));
+    }
+    if given_up > 0 { ctx.capped = true; ctx.extra.insert("sum_units_given_up_after_repeated_process_deaths".into(), json!(given_up)); }
+
+    ctx.sample(|| { let c = &b.cookies_full; let jar = [&c[0], &c[c.len() - 1]]; json!({"jar": jar_json(&jar), "header": header_of(&jar)}) });
+    ctx.sample(|| { let s = SetSpec { name: "a", value: "a;b".into(), dir: combos[combos.len() - 1].clone() };
+        json!({"set-cookie": s.dir.json(), "line": build_response(&[s]).headers.iter().filter(|(k, _)| *k == "Set-Cookie").map(|(_, v)| v.to_string()).collect::<Vec<_>>()}) });
+    ctx.extra.insert("rule".into(), json!("request side: case = (jar of 1..3 cookies with distinct names, each value in one RFC 6265 wire form; one of 8 target structs | the request's \
+        Cookies() iterator); non-trivial = the target declares at least one cookie of the jar; collision = some cookie's wire form differs from its value (quoted or percent-encoded). \
+        response side: case = (1 or 2 cookies × directive combination) read back by the independent RFC 6265 parser, by headers.SetCookie() and from the bytes written by send; \
+        collision = the value needs encoding, Max-Age is u64::MAX, or two cookies share a response. every case is distinct by construction (full products)"));
+    ctx.extra.insert("distinct_by_construction".into(), json!(true));
+    ctx.extra.insert("bounds".into(), json!({
+        "names": NAMES, "values": VALUES, "wire_forms": Enc::ALL.iter().map(|e| e.tag()).collect::<Vec<_>>(),
+        "cookie_alphabet_full": b.cookies_full.len(), "jar_len_full": b.full_max, "cookie_alphabet_reduced": b.cookies_reduced.len(), "jar_len_reduced": b.reduced_max,
+        "targets": TARGETS.iter().map(|t| t.id).collect::<Vec<_>>(), "directive_combinations": combos.len(), "paths": b.paths, "max_age": [0u64, 1, u64::MAX],
+        "two_cookie_responses": singles.len() * singles.len() }));
+}
+
+/* =============================== replay =============================== */
+
+fn leak(s: &str) -> &'static str { NAMES.iter().copied().find(|n| *n == s).unwrap_or_else(|| Box::leak(s.to_string().into_boxed_str())) }
+
+pub fn replay(ctx: &mut Ctx, case: &Value) {
+    // in its own process: a case that kills the process is a violation of kind abort, as during the exploration
+    let (property, tier) = (ctx.property, ctx.tier);
+    match fork_run(120, || { let mut c = Ctx::new(property, tier, 0, 1); c.replaying = true; replay_here(&mut c, case); c.report().to_string().into_bytes() }) {
+        ForkResult::Done(bytes) => match serde_json::from_slice::<Value>(&bytes) { Ok(r) => merge_report(ctx, &r), Err(e) => ctx.machinery_error(format!("replay report unreadable: {e}")) },
+        ForkResult::Signaled(sig) => {
+            let prefix = match case["part"].as_str() {
+                Some(part @ ("de" | "iter")) => jar_from_json(case).map(|cookies| died_class_request(&cookies.iter().collect::<Vec<_>>(),
+                    if part == "iter" { None } else { case["target"].as_str().and_then(|id| TARGETS.iter().position(|t| t.id == id)) })),
+                Some("set-cookie") => specs_from_json(case).map(|s| died_class_response(&s)),
+                _ => None,
+            };
+            match prefix { Some(p) => ctx.violation(&format!("{p}/abort:{}", signal_name(sig)), true, || case.clone()), None => ctx.machinery_error("C11 replay: unreadable case".into()) }
+        }
+        ForkResult::Exited(c) => ctx.machinery_error(format!("replay child exited with code {c}")),
+        ForkResult::Failed(w) => ctx.machinery_error(format!("replay isolation: {w} failed")),
+    }
+}
+
+fn jar_from_json(case: &Value) -> Option<Vec<Cookie>> {
+    let a = case["jar"].as_array()?;
+    let cookies: Vec<Cookie> = a.iter().filter_map(|c| {
+        let (name, value, enc) = (leak(c["name"].as_str()?), c["value"].as_str()?, Enc::from_tag(c["enc"].as_str()?)?);
+        Some(Cookie { name, value: value.to_string(), enc, wire: ck::encode_value(value, enc)? })
+    }).collect();
+    (!cookies.is_empty() && cookies.len() == a.len()).then_some(cookies)
+}
+fn specs_from_json(case: &Value) -> Option<Vec<SetSpec>> {
+    let a = case["cookies"].as_array()?;
+    let specs: Vec<SetSpec> = a.iter().filter_map(|c| Some(SetSpec { name: leak(c["name"].as_str()?), value: c["value"].as_str()?.to_string(), dir: Directives::from_json(&c["directives"])? })).collect();
+    (!specs.is_empty() && specs.len() == a.len()).then_some(specs)
+}
+
+fn replay_here(ctx: &mut Ctx, case: &Value) {
+    crate::app::pin_clock();
+    match case["part"].as_str() {
+        Some(part @ ("de" | "iter")) => {
+            let Some(cookies) = jar_from_json(case) else { return ctx.machinery_error("C11 replay: unreadable jar".into()) };
+            let jar: Vec<&Cookie> = cookies.iter().collect();
+            let header = header_of(&jar);
+            let encoded = jar.iter().any(|c| c.wire != c.value);
+            if part == "iter" { check_iter(ctx, &IterApp::new(), &jar, &header, encoded) }
+            else {
+                let Some(ti) = case["target"].as_str().and_then(|id| TARGETS.iter().position(|t| t.id == id)) else { return ctx.machinery_error("C11 replay: unknown target".into()) };
+                check_typed(ctx, &jar, &header, ti, encoded)
+            }
+        }
+        Some("set-cookie") => {
+            match specs_from_json(case) { Some(s) => check_response(ctx, &s), None => ctx.machinery_error("C11 replay: unreadable cookies".into()) }
+        }
+        _ => ctx.machinery_error("C11 replay: case needs part = de | iter | set-cookie".into()),
+    }
+}
